@@ -54,6 +54,6 @@ example :
     (∃ g, register [⟨1, 2, 2, false, 7⟩, ⟨2, 3, 3, false, 8⟩] ⟨3, 4, 4, false, 9⟩ false = .ok g) ∧
     (register [⟨1, 2, 2, false, 7⟩, ⟨2, 3, 3, false, 8⟩] ⟨3, 1, 1, false, 9⟩ false = .error .cycle) ∧
     ((apply [⟨1, 2, 1, false, 7⟩] false [5] 1).err = some .loop) := by
-  decide
+  refine ⟨rfl, ⟨_, rfl⟩, rfl, by decide⟩
 
 end Ebu.Props.C16
